@@ -1022,3 +1022,180 @@ Proof.
   - exfalso. exact (c10_fail_exit_not_ok _ _ _ _ Hx).
   - destruct Hx; discriminate.
 Qed.
+
+(* ---- qpdf JSON with stream-data files: main file + stream files opened, fed and closed in between *)
+(* what the item sequence asks for, independently of the sinks: per stream name (open?, data so far); main data *)
+Definition c10_jst := nat -> option (bool * list N).
+Definition c10_jupd (st : c10_jst) (s : nat) (v : bool * list N) : c10_jst := fun k => if Nat.eqb k s then Some v else st k.
+Fixpoint c10_json_sim (main : nat) (items : list c10_jitem) (st : c10_jst) (md : list N) : option (c10_jst * list N) :=
+  match items with
+  | [] => Some (st, md)
+  | JChunk d :: tl => c10_json_sim main tl st (md ++ d)
+  | JStreamOpen s :: tl =>
+    if Nat.eqb s main then None else
+    match st s with Some _ => None | None => c10_json_sim main tl (c10_jupd st s (true, [])) md end
+  | JStreamChunk s d :: tl =>
+    match st s with Some (true, x) => c10_json_sim main tl (c10_jupd st s (true, x ++ d)) md | _ => None end
+  | JStreamEnd s :: tl =>
+    match st s with Some (true, x) => c10_json_sim main tl (c10_jupd st s (false, x)) md | _ => None end
+  end.
+
+Definition c10_jinv (w : c10_world) (main : nat) (st : c10_jst) (md : list N) : Prop :=
+  c10_sinv w main md /\
+  forall s, match st s with
+            | None => True
+            | Some (true, x) => s <> main /\ c10_sinv w s x
+            | Some (false, x) => s <> main /\ c10_clean w s x false
+            end.
+
+Lemma c10_sinv_frame name m w w' data : m <> name -> c10_frame name w w' -> c10_sinv w m data -> c10_sinv w' m data.
+Proof. intros Hm (F & _) (f & Hat & H). exists f. rewrite F; auto. Qed.
+
+Lemma c10_jinv_step w w' main st md name st' md' :
+  c10_frame name w w' ->
+  c10_sinv w' main md' ->
+  (forall s, s <> name -> st' s = st s) ->
+  (match st' name with
+   | None => True
+   | Some (true, x) => name <> main /\ c10_sinv w' name x
+   | Some (false, x) => name <> main /\ c10_clean w' name x false
+   end) ->
+  c10_jinv w main st md -> c10_jinv w' main st' md'.
+Proof.
+  intros Hfr Hmain Hsame Hname (_ & Hall). split; [exact Hmain|].
+  intros s. destruct (Nat.eq_dec s name) as [->|Hne]; [exact Hname|].
+  rewrite (Hsame s Hne). specialize (Hall s). destruct (st s) as [[[] x]|]; auto.
+  - destruct Hall as [A B]. split; [exact A|]. eapply c10_sinv_frame; eauto.
+  - destruct Hall as [A B]. split; [exact A|]. eapply c10_clean_frame; eauto.
+Qed.
+
+Lemma c10_jupd_same st s v : c10_jupd st s v s = Some v.
+Proof. unfold c10_jupd. rewrite Nat.eqb_refl. reflexivity. Qed.
+Lemma c10_jupd_other st s v k : k <> s -> c10_jupd st s v k = st k.
+Proof. intros H. unfold c10_jupd. destruct (Nat.eqb k s) eqn:E; [apply Nat.eqb_eq in E; congruence|reflexivity]. Qed.
+
+Lemma c10_fopen_inv en name w w1 :
+  c10_fopen en name w = ROk true w1 -> c10_sinv w1 name [] /\ c10_frame name w w1.
+Proof.
+  intros Ho. unfold c10_fopen in Ho. simpl in Ho.
+  destruct (c10_is_killb (en_fault en (S (cw_n w)))); [discriminate|].
+  set (f0 := c10_apply_fault (en_fault en (S (cw_n w))) (sio_new (en_initcap en) false)) in *.
+  assert (Hf0 : sf_open f0 = true /\ (sf_err f0 = false -> sio_logical f0 = [])).
+  { subst f0. destruct (en_fault en (S (cw_n w))); simpl; auto. }
+  destruct (en_fault en (S (cw_n w))) eqn:Efa; simpl in Ho; try discriminate;
+    inversion Ho; subst; clear Ho;
+    (split; [exists f0; split; [apply c10_lookup_bind_same|exact Hf0]
+            |split; [intros m Hm; unfold c10_at; simpl; apply c10_lookup_bind_other; auto|split; reflexivity]]).
+Qed.
+
+Lemma c10_json_items_inv en main : ck_finish (en_ck en) = true ->
+  forall items st md w w' st' md',
+  c10_jinv w main st md -> c10_json_sim main items st md = Some (st', md') ->
+  c10_json_items en main items w = ROk tt w' -> c10_jinv w' main st' md'.
+Proof.
+  intros Hck. induction items as [|it tl IH]; intros st md w w' st' md' Hinv Hsim H; simpl in Hsim, H.
+  - inversion Hsim; inversion H; subst. exact Hinv.
+  - destruct it as [d|s|s d|s].
+    + (* main chunk *)
+      unfold c10_pl_write_all in H.
+      destruct (c10_pl_write (S (length d)) en main d w) as [[] w1|e w1|w1] eqn:Hw; simpl in H; try discriminate.
+      destruct (c10_pl_write_inv _ _ _ _ _ _ _ (proj1 Hinv) Hw) as (Hm1 & Hfr).
+      eapply IH; [|exact Hsim|exact H].
+      destruct Hinv as (_ & Hall). split; [exact Hm1|]. intros s. specialize (Hall s).
+      destruct (st s) as [[[] x]|]; auto; destruct Hall as [A B]; (split; [exact A|]).
+      * eapply c10_sinv_frame; eauto.
+      * eapply c10_clean_frame; eauto.
+    + (* open a stream file *)
+      destruct (Nat.eqb s main) eqn:Esm; [discriminate|]. apply Nat.eqb_neq in Esm.
+      destruct (st s) eqn:Ests; [discriminate|].
+      destruct (c10_fopen en s w) as [ok w1|e w1|w1] eqn:Ho; simpl in H; try discriminate.
+      destruct ok; simpl in H; [|discriminate].
+      destruct (c10_fopen_inv _ _ _ _ Ho) as (Hs1 & Hfr).
+      eapply IH; [|exact Hsim|exact H].
+      eapply (c10_jinv_step w w1 main st md s); eauto.
+      * eapply c10_sinv_frame; [| exact Hfr | exact (proj1 Hinv)]. auto.
+      * intros k Hk. apply c10_jupd_other; auto.
+      * rewrite c10_jupd_same. split; auto.
+    + (* data into a stream file *)
+      destruct (st s) as [[[] x]|] eqn:Ests; try discriminate.
+      pose proof (proj2 Hinv s) as Hs. rewrite Ests in Hs. destruct Hs as [Hne Hsinv].
+      unfold c10_pl_write_all in H.
+      destruct (c10_pl_write (S (length d)) en s d w) as [[] w1|e w1|w1] eqn:Hw; simpl in H; try discriminate.
+      destruct (c10_pl_write_inv _ _ _ _ _ _ _ Hsinv Hw) as (Hs1 & Hfr).
+      eapply IH; [|exact Hsim|exact H].
+      eapply (c10_jinv_step w w1 main st md s); eauto.
+      * eapply c10_sinv_frame; [| exact Hfr | exact (proj1 Hinv)]. auto.
+      * intros k Hk. apply c10_jupd_other; auto.
+      * rewrite c10_jupd_same. split; auto.
+    + (* finish and close a stream file *)
+      destruct (st s) as [[[] x]|] eqn:Ests; try discriminate.
+      pose proof (proj2 Hinv s) as Hs. rewrite Ests in Hs. destruct Hs as [Hne Hsinv].
+      destruct (c10_pl_finish en s w) as [[] w1|e w1|w1] eqn:Hf; simpl in H; try discriminate.
+      destruct (c10_pl_finish_inv _ _ _ _ _ Hck Hsinv Hf) as (Hc1 & Hfr1).
+      destruct (c10_fclose en s w1) as [okc w2|e w2|w2] eqn:Hc; simpl in H; try discriminate.
+      destruct (c10_fclose_clean _ _ _ _ _ _ Hc1 Hc) as (Hc2 & Hfr2).
+      destruct (ck_jsclose (en_ck en) && negb okc); [discriminate|].
+      pose proof (c10_frame_trans _ _ _ _ Hfr1 Hfr2) as Hfr.
+      eapply IH; [|exact Hsim|exact H].
+      eapply (c10_jinv_step w w2 main st md s); eauto.
+      * eapply c10_sinv_frame; [| exact Hfr | exact (proj1 Hinv)]. auto.
+      * intros k Hk. apply c10_jupd_other; auto.
+      * rewrite c10_jupd_same. split; auto.
+Qed.
+
+Lemma c10_json_file_complete en main items w w' st' md' :
+  ck_finish (en_ck en) = true -> ck_jclose (en_ck en) = true ->
+  c10_json_sim main items (fun _ => None) [] = Some (st', md') ->
+  c10_json_file en main items w = ROk tt w' ->
+  c10_clean w' main md' false /\ (forall s x, st' s = Some (false, x) -> c10_clean w' s x false).
+Proof.
+  intros Hck Hjc Hsim H. unfold c10_json_file in H.
+  destruct (c10_fopen en main w) as [ok w1|e w1|w1] eqn:Ho; simpl in H; try discriminate.
+  destruct ok; simpl in H; [|discriminate].
+  destruct (c10_fopen_inv _ _ _ _ Ho) as (Hm1 & _).
+  rewrite Hjc in H.
+  set (body := c10_bind (c10_json_items en main items w1) _) in H.
+  destruct body as [[] w5|e w5|w5] eqn:Hbody; simpl in H; try discriminate.
+  2:{ destruct (c10_is_open w5 main); [destruct (c10_fclose en main w5); discriminate|discriminate]. }
+  subst body.
+  destruct (c10_json_items en main items w1) as [[] w2|e w2|w2] eqn:Hit; simpl in Hbody; try discriminate.
+  assert (Hinv1 : c10_jinv w1 main (fun _ => None) []) by (split; [exact Hm1|intros s; exact I]).
+  pose proof (c10_json_items_inv en main Hck _ _ _ _ _ _ _ Hinv1 Hsim Hit) as (Hm2 & Hall2).
+  destruct (c10_pl_finish en main w2) as [[] w3|e w3|w3] eqn:Hf; simpl in Hbody; try discriminate.
+  destruct (c10_pl_finish_inv _ _ _ _ _ Hck Hm2 Hf) as (Hc3 & Hfr3).
+  destruct (c10_fclose en main w3) as [okc w4|e w4|w4] eqn:Hc; simpl in Hbody; try discriminate.
+  destruct (c10_fclose_clean _ _ _ _ _ _ Hc3 Hc) as (Hc4 & Hfr4).
+  destruct (negb okc); [discriminate|]. inversion Hbody; subst; clear Hbody.
+  assert (Hopen : c10_is_open w5 main = false).
+  { destruct Hc4 as (f & Hat & Hop & _). unfold c10_is_open. fold (c10_at w5 main). rewrite Hat. exact Hop. }
+  rewrite Hopen in H. inversion H; subst; clear H.
+  split; [exact Hc4|]. intros s x Hs. specialize (Hall2 s). rewrite Hs in Hall2. destruct Hall2 as [Hne Hcl].
+  eapply c10_clean_frame; [exact Hne|exact (c10_frame_trans _ _ _ _ Hfr3 Hfr4)|exact Hcl].
+Qed.
+
+(* C10, third sentence, qpdf JSON with stream-data files, repaired sinks (finish checked; writeJSON closes explicitly and
+   checks): for every buffer size, data, fault oracle, capacity: exit status 0 or 3 implies that the main file holds all
+   main-file writes and every stream file that was opened, fed and closed holds exactly its data. *)
+Lemma exit_ok_implies_complete_json_lemma : forall en warn wx0 main items orig st' md',
+  ck_finish (en_ck en) = true -> ck_jclose (en_ck en) = true ->
+  c10_json_sim main items (fun _ => None) [] = Some (st', md') ->
+  let r := c10_run en warn wx0 (ScJson main items) orig in
+  (rs_exit r = Some 0 \/ rs_exit r = Some 3) ->
+  c10_file_of r main = Some md' /\ (forall s x, st' s = Some (false, x) -> c10_file_of r s = Some x).
+Proof.
+  intros en warn wx0 main items orig st' md' Hck Hjc Hsim r Hx. subst r.
+  assert (Hrun : c10_run en warn wx0 (ScJson main items) orig =
+    match c10_json_file en main items (c10_initial en (ScJson main items) orig) with
+    | ROk _ w => mk_result (Some (if (warn || false) && negb wx0 then 3 else 0)) (c10_exit_flush_all (if warn || false then c10_say w DgWarn else w))
+    | RExc e w => mk_result (Some 2) (c10_exit_flush_all (c10_say w (c10_exn_diag e)))
+    | RDead w => mk_result None w
+    end).
+  { unfold c10_run, c10_fail_exit, c10_main_stdout_check. simpl. rewrite ?andb_false_r.
+    destruct (c10_json_file en main items _) as [[] w1|e w1|w1]; simpl; try reflexivity; try (destruct warn; reflexivity). }
+  rewrite Hrun in *. clear Hrun.
+  destruct (c10_json_file en main items _) as [[] w1|e w1|w1] eqn:Hj; simpl in Hx |- *; try (destruct Hx; discriminate).
+  destruct (c10_json_file_complete _ _ _ _ _ _ _ Hck Hjc Hsim Hj) as (Hm & Hs).
+  assert (Hsay : forall n c, c10_clean w1 n c false -> c10_clean (if warn || false then c10_say w1 DgWarn else w1) n c false).
+  { intros n c Hc. destruct (warn || false); [|exact Hc]. destruct Hc as (f & Hat & Hr). exists f. rewrite c10_at_say. split; [exact Hat|exact Hr]. }
+  split; [apply c10_file_of_clean, Hsay, Hm|]. intros s x Hsx. apply c10_file_of_clean, Hsay, Hs, Hsx.
+Qed.
